@@ -347,6 +347,9 @@ fn run(ctx: &mut Ctx, si: usize, _case: u64) {
                     log.push(l);
                 }
             }
+            if ctx.rng.chance(1, 8) {
+                log.extend(mutate::alias_tables(&mut ctx.rng, &mut b));
+            }
             if ctx.rng.chance(1, 4) {
                 // several tables each spanning (nearly) the whole file
                 let k = 2 + ctx.rng.usize_below(5);
